@@ -11,6 +11,7 @@ import Mathlib.Tactic.Positivity
 import Mathlib.Tactic.SplitIfs
 import Mathlib.Tactic.Choose
 import Mathlib.Order.Monotone.Basic
+import Mathlib.Algebra.Order.Ring.Abs
 
 set_option linter.unusedSectionVars false
 
@@ -47,6 +48,24 @@ def Ordered (n : Nat) (seg : Nat → Nat) (par : Nat → K) : Prop :=
 /-- equal spacing: the `k`-th of `n` points is at arc length `k·total/(n-1)` -/
 def Spaced (df : Pt K → Pt K → K) (ps : List (Pt K)) (n : Nat) (seg : Nat → Nat) (par : Nat → K) : Prop :=
   ∀ k, k < n → arcAt df ps (seg k) (par k) = (k : K) * lineLength df ps / ((n - 1 : Nat) : K)
+
+/-- hypothesis on the distance function (needed for the spacing clause stated in terms of `df`
+    itself): measured from the start vertex of a segment, the distance grows linearly with the
+    interpolation parameter.  True of the planar distance (`linearAlong_of_euclid'`); false of
+    `geo.Distance` on segments that are neither meridians nor parallels. -/
+def LinearAlong (df : Pt K → Pt K → K) : Prop :=
+  ∀ a b τ, 0 ≤ τ → τ ≤ 1 → df a (lerp a b τ) = τ * df a b
+
+/-- distance travelled to reach `p` on segment `i`: the first `i` segments in full, then from
+    the start vertex of segment `i` to `p` — everything measured with `df` -/
+def alongDf (df : Pt K → Pt K → K) (ps : List (Pt K)) (i : Nat) (p : Pt K) : K :=
+  cum df ps i + df (ps.getD i ⟨0, 0⟩) p
+
+/-- equal spacing in terms of the distance function that was passed in: the `k`-th point of
+    `out` (on segment `seg k`) is `k·total/(n-1)` along the line, `n = out.length` -/
+def SpacedDf (df : Pt K → Pt K → K) (ps out : List (Pt K)) (seg : Nat → Nat) : Prop :=
+  ∀ k, k < out.length →
+    alongDf df ps (seg k) (out.getD k ⟨0, 0⟩) = (k : K) * lineLength df ps / ((out.length - 1 : Nat) : K)
 
 end vocabulary
 
@@ -484,6 +503,58 @@ theorem resampleCore_spec (df : Pt K → Pt K → K) (hdf : NonNeg df) (p0 p1 : 
           · field_simp
             ring
 
+
+/-! ### spacing in terms of the distance function itself -/
+
+theorem spacedDf_of_spaced (df : Pt K → Pt K → K) (hlin : LinearAlong df) (ps out : List (Pt K))
+    (seg : Nat → Nat) (par : Nat → K) (hon : OnLine ps out seg par)
+    (hsp : Spaced df ps out.length seg par) : SpacedDf df ps out seg := by
+  intro k hk
+  obtain ⟨h0, h1, a, b, ha, hb, ho⟩ := hon k hk
+  have h := hsp k hk
+  unfold arcAt at h
+  have hd : (dists df ps).getD (seg k) 0 = df a b := by
+    simp [List.getD, dists_getElem? df ps (seg k) a b ha hb]
+  have hpa : ps.getD (seg k) ⟨0, 0⟩ = a := by simp [List.getD, ha]
+  have hpo : out.getD k ⟨0, 0⟩ = lerp a b (par k) := by simp [List.getD, ho]
+  rw [hd] at h
+  unfold alongDf
+  rw [hpa, hpo, hlin a b (par k) h0 h1]
+  exact h
+
+/-- consecutive points are `total/(n-1)` apart (distance along the line, measured with `df`) -/
+theorem gap_of_spacedDf (df : Pt K → Pt K → K) (ps out : List (Pt K)) (seg : Nat → Nat)
+    (hsp : SpacedDf df ps out seg) (k : Nat) (hk : k + 1 < out.length) :
+    alongDf df ps (seg (k + 1)) (out.getD (k + 1) ⟨0, 0⟩) - alongDf df ps (seg k) (out.getD k ⟨0, 0⟩)
+      = lineLength df ps / ((out.length - 1 : Nat) : K) := by
+  rw [hsp (k + 1) hk, hsp k (by omega)]
+  have hm := (cast_pred_pos (K := K) out.length (by omega)).ne'
+  field_simp
+  push_cast
+  ring
+
+/-- a distance function whose square is the Euclidean squared distance is linear along segments -/
+theorem linearAlong_of_euclid' (df : Pt K → Pt K → K) (hdf : NonNeg df)
+    (hsq : ∀ a b, df a b * df a b = (a.x - b.x) * (a.x - b.x) + (a.y - b.y) * (a.y - b.y)) :
+    LinearAlong df := by
+  intro a b τ h0 _
+  have h1 : df a (lerp a b τ) * df a (lerp a b τ) = (τ * df a b) * (τ * df a b) := by
+    rw [hsq a (lerp a b τ)]
+    have : (τ * df a b) * (τ * df a b) = τ * τ * (df a b * df a b) := by ring
+    rw [this, hsq a b]
+    simp only [lerp]
+    ring
+  exact (mul_self_inj (hdf _ _) (mul_nonneg h0 (hdf _ _))).mp h1
+
+/-- the Manhattan distance is linear along segments -/
+theorem linearAlong_manhattan' : LinearAlong (fun a b : Pt K => |a.x - b.x| + |a.y - b.y|) := by
+  intro a b τ h0 _
+  simp only [lerp]
+  have e1 : a.x - (a.x + τ * (b.x - a.x)) = τ * (a.x - b.x) := by ring
+  have e2 : a.y - (a.y + τ * (b.y - a.y)) = τ * (a.y - b.y) := by ring
+  rw [e1, e2, abs_mul, abs_mul, abs_of_nonneg h0]
+  ring
+
 /-! ### edge cases -/
 
 theorem ptEq_iff (p q : Pt K) : ptEq p q = true ↔ p = q := by
@@ -680,6 +751,25 @@ theorem resample_spacing' (df : Pt K → Pt K → K) (hdf : NonNeg df) (ps : Lis
   obtain ⟨out, seg, par, h1, h2, _, _, h5, h6, h7⟩ := resample_main_spec df hdf ps n hlen hpos hne hn
   exact ⟨out, seg, par, h1, h2, h5, h6, h7⟩
 
+theorem resample_spacing_df' (df : Pt K → Pt K → K) (hdf : NonNeg df) (hlin : LinearAlong df)
+    (ps : List (Pt K)) (n : Int)
+    (hlen : 2 ≤ ps.length) (hpos : 0 < lineLength df ps) (hne : allEq ps = false) (hn : 1 ≤ n) :
+    ∃ out seg par, resample df (some ps) n = .ok (some out) ∧ (out.length : Int) = n ∧
+      OnLine ps out seg par ∧ Ordered out.length seg par ∧ SpacedDf df ps out seg := by
+  obtain ⟨out, seg, par, h1, h2, _, _, h5, h6, h7⟩ := resample_main_spec df hdf ps n hlen hpos hne hn
+  exact ⟨out, seg, par, h1, h2, h5, h6, spacedDf_of_spaced df hlin ps out seg par h5 h7⟩
+
+theorem resample_gap_df' (df : Pt K → Pt K → K) (hdf : NonNeg df) (hlin : LinearAlong df)
+    (ps : List (Pt K)) (n : Int)
+    (hlen : 2 ≤ ps.length) (hpos : 0 < lineLength df ps) (hne : allEq ps = false) (hn : 1 ≤ n) :
+    ∃ out seg par, resample df (some ps) n = .ok (some out) ∧ (out.length : Int) = n ∧
+      OnLine ps out seg par ∧ Ordered out.length seg par ∧
+      ∀ k, k + 1 < out.length →
+        alongDf df ps (seg (k + 1)) (out.getD (k + 1) ⟨0, 0⟩) - alongDf df ps (seg k) (out.getD k ⟨0, 0⟩)
+          = lineLength df ps / ((out.length - 1 : Nat) : K) := by
+  obtain ⟨out, seg, par, h1, h2, h3, h4, h5⟩ := resample_spacing_df' df hdf hlin ps n hlen hpos hne hn
+  exact ⟨out, seg, par, h1, h2, h3, h4, fun k hk => gap_of_spacedDf df ps out seg h5 k hk⟩
+
 theorem allEq_length_zero' (df : Pt K → Pt K → K) (h0 : ∀ p, df p p = 0) (ps : List (Pt K))
     (he : allEq ps = true) : lineLength df ps = 0 := by
   rw [lineLength_eq_sum]
@@ -757,6 +847,14 @@ theorem interval_sampling' (trunc : K → Int) (htr : IsFloor trunc) (df : Pt K 
     resample_main_spec df hdf ps _ hlen hpos hne (show 1 ≤ trunc (lineLength df ps / d) + 1 by omega)
   refine ⟨out, seg, par, h1, h3, ?_, h5, h6, h7⟩
   intro h; apply h4; omega
+
+theorem interval_spacing_df' (trunc : K → Int) (htr : IsFloor trunc) (df : Pt K → Pt K → K) (hdf : NonNeg df)
+    (hlin : LinearAlong df) (ps : List (Pt K)) (d : K) (hlen : 2 ≤ ps.length) (hpos : 0 < lineLength df ps)
+    (hne : allEq ps = false) (hd : 0 < d) :
+    ∃ out seg par, toInterval trunc df (some ps) d = .ok (some out) ∧
+      OnLine ps out seg par ∧ Ordered out.length seg par ∧ SpacedDf df ps out seg := by
+  obtain ⟨out, seg, par, h1, _, _, h4, h5, h6⟩ := interval_sampling' trunc htr df hdf ps d hlen hpos hne hd
+  exact ⟨out, seg, par, h1, h4, h5, spacedDf_of_spaced df hlin ps out seg par h4 h6⟩
 
 theorem interval_all_equal' (trunc : K → Int) (htr : IsFloor trunc) (df : Pt K → Pt K → K) (hdf : NonNeg df)
     (ps : List (Pt K)) (p0 : Pt K) (d : K) (hlen : 2 ≤ ps.length) (heq : ∀ p ∈ ps, p = p0) (hd : 0 < d) :
